@@ -1,6 +1,6 @@
 (* Theorems about tools::set_location (model in SetLocation.v). *)
 From Coq Require Import List Arith NArith ZArith Bool Lia ZifyN ZifyBool ZifyNat.
-From Jbk Require Import Base.ListExtra Base.Bytes Base.Crc Base.Parser Base.Prog Format.Structs
+From Jbk Require Import Base.ListExtra Base.Bytes Base.Crc Base.Parser Base.Utf8 Base.Prog Format.Structs
   Manifest.Mask Manifest.SetLocation.
 Import ListNotations.
 Open Scope N_scope.
@@ -77,6 +77,7 @@ Proof.
   destruct (p_u 1 l7) as [[n l8]|] eqn:E8; cbn [bind]; [|discriminate].
   destruct (p_bytes (N.to_nat n) l8) as [[loc l9]|] eqn:E9; cbn [bind]; [|discriminate].
   destruct (p_skip (213 - N.to_nat n) l9) as [[[] l10]|] eqn:E10; cbn [bind]; [|discriminate].
+  destruct (utf8_valid loc) eqn:EU; cbn [negb]; [|discriminate].
   intros E. injection E as <-.
   apply p_bytes_inv in E1. destruct E1 as [-> Lu].
   apply p_u_inv in E2. destruct E2 as (a2 & -> & L2 & ->).
@@ -99,7 +100,7 @@ Proof.
   - unfold wf_pack_info, wf_sized_offset. cbn [pi_uuid pi_size pi_check pi_id pi_group pi_free_id pi_loc so_size so_off].
     change (256 ^ N.of_nat 8) with (2 ^ 64) in *. change (256 ^ N.of_nat 2) with (2 ^ 16) in *.
     change (256 ^ N.of_nat 1) with 256 in *.
-    repeat split; try assumption; try lia.
+    unfold wf_loc. repeat split; try assumption; try lia.
   - unfold pi_fixed. cbn [pi_uuid pi_size pi_check pi_id pi_kind pi_group pi_free_id].
     rewrite (kind_byte_of_byte _ _ EK).
     rewrite ser_sized_offset_canon by assumption.
@@ -127,7 +128,7 @@ Proof.
   intros E. injection E as <-. auto.
 Qed.
 
-Lemma new_block_length pi loc : wf_pack_info pi -> (length loc <= 213)%nat -> length (new_block pi loc) = 256%nat.
+Lemma new_block_length pi loc : wf_pack_info pi -> wf_loc loc -> length (new_block pi loc) = 256%nat.
 Proof.
   intros W L. unfold new_block, mk_block. rewrite app_length, crc_bytes_length.
   rewrite ser_pack_info_length by (now apply wf_set_loc). reflexivity.
@@ -177,7 +178,7 @@ Proof. apply le_enc_wf. Qed.
 Lemma wf_bytes_ser_pack_info pi : wf_pack_info pi -> wf_bytes (pi_uuid pi) -> wf_bytes (pi_loc pi) ->
   wf_bytes (ser_pack_info pi).
 Proof.
-  intros (Hu & Hs & Hc & Hid & Hg & Hf & Hl) Wu Wl.
+  intros (Hu & Hs & Hc & Hid & Hg & Hf & Hl & Hu8) Wu Wl.
   unfold ser_pack_info, pi_fixed, ser_location, ser_sized_offset.
   repeat (apply wf_bytes_app; split); try apply le_enc_wf; try assumption; try apply wf_bytes_repeat0.
   - constructor; [destruct (pi_kind pi); cbn; lia|constructor].
@@ -254,7 +255,9 @@ Let g := ml_lo m + 256 * N.of_nat j.
 Let f' := splice (N.to_nat g) (new_block pi loc) f.
 Hypothesis Wf : wf_bytes f.
 Hypothesis Wl : wf_bytes loc.
-Hypothesis Ll : (length loc <= 213)%nat.
+Hypothesis Hwl : wf_loc loc.
+Let Ll : (length loc <= 213)%nat := proj1 Hwl.
+Let Ul : utf8_valid loc = true := proj2 Hwl.
 Hypothesis LO : layout_okb f = true.
 Hypothesis Hm : run f locate_manifest_p = Ok m.
 Hypothesis Hj : (j < N.to_nat (ml_count m))%nat.
@@ -421,7 +424,7 @@ Lemma Inv_refl f : wf_bytes f -> layout_okb f = true -> Inv f f.
 Proof. intros W L. repeat split; auto. Qed.
 
 Lemma Inv_step f0 f u loc f' k old :
-  Inv f0 f -> wf_bytes loc -> (length loc <= 213)%nat ->
+  Inv f0 f -> wf_bytes loc -> wf_loc loc ->
   set_location f u loc = Ok (Some (f', k, old)) -> Inv f0 f'.
 Proof.
   intros (W & LO & Len & Loc & V & Ck & Fr) Wl Ll S.
@@ -440,7 +443,7 @@ Proof.
 Qed.
 
 Theorem set_locations_inv f0 ops : forall f f'',
-  Inv f0 f -> Forall (fun o => wf_bytes (snd o) /\ (length (snd o) <= 213)%nat) ops ->
+  Inv f0 f -> Forall (fun o => wf_bytes (snd o) /\ wf_loc (snd o)) ops ->
   set_locations f ops = Ok f'' -> Inv f0 f''.
 Proof.
   induction ops as [|[u loc] ops IH]; intros f f'' I Hops; cbn [set_locations].
